@@ -149,6 +149,47 @@ func census() (string, bool) {
 	return sb.String(), allParked
 }
 
+// LibGoroutines lists the goroutines (other than the caller) whose stack, including the "created by" line, has a
+// frame inside the library: "<state> <first library frame>".
+func LibGoroutines() []string {
+	stackMu.Lock()
+	defer stackMu.Unlock()
+	n := runtime.Stack(stackBuf, true)
+	for n == len(stackBuf) {
+		stackBuf = make([]byte, 2*len(stackBuf))
+		n = runtime.Stack(stackBuf, true)
+	}
+	var out []string
+	for i, g := range strings.Split(string(stackBuf[:n]), "\n\n") {
+		if i == 0 {
+			continue
+		}
+		lines := strings.Split(g, "\n")
+		state := ""
+		if m := hdrRe.FindStringSubmatch(lines[0]); m != nil {
+			state = m[2]
+		}
+		for _, l := range lines[1:] {
+			if strings.Contains(l, "go.nanomsg.org/mangos/v3") && !strings.HasPrefix(l, "\t") {
+				f := strings.TrimPrefix(l, "created by ")
+				if j := strings.Index(f, "("); j > 0 && !strings.HasPrefix(l, "created by ") {
+					// keep "pkg.(*T).method", drop the argument list
+					if k := strings.LastIndex(f, "("); k > 0 {
+						f = f[:k]
+					}
+				}
+				if j := strings.Index(f, " in goroutine"); j > 0 {
+					f = f[:j]
+				}
+				out = append(out, state+" "+strings.TrimPrefix(f, "go.nanomsg.org/mangos/v3/"))
+				break
+			}
+		}
+	}
+	sort.Strings(out)
+	return out
+}
+
 // Quiesce waits until every goroutine other than the caller is parked, in two consecutive
 // identical censuses.  It returns false if that does not happen within the timeout.
 func Quiesce() bool { return QuiesceT(2 * time.Second) }
